@@ -145,10 +145,15 @@ func replay(root, cases, out, cli string, cliMax int, selfbug string) int {
 	h := readHeader(cases)
 	res := vutil.NewResult()
 	seed := vutil.Seed()
-	var archPlain, archDup []string
+	var archPlain []string
+	var archDup [][]string // per initial tree: one text per spelling of the duplicate entry's name
 	for _, t := range h.init {
 		archPlain = append(archPlain, archiveText(t, false))
-		archDup = append(archDup, archiveText(t, true))
+		var ds []string
+		for _, sp := range dupSpellings {
+			ds = append(ds, archiveTextSpelled(t, true, sp))
+		}
+		archDup = append(archDup, ds)
 	}
 	var seq int64
 	var cliRuns, cliSkipped int64
@@ -182,7 +187,8 @@ func replay(root, cases, out, cli string, cliMax int, selfbug string) int {
 		}
 		arch := archPlain[prof.Arch-1]
 		if prof.Dup {
-			arch = archDup[prof.Arch-1]
+			ds := archDup[prof.Arch-1]
+			arch = ds[rng.Intn(len(ds))]
 		}
 		rd := renderScript(h.vocab, c.Script, arch, rng, true)
 		name := fmt.Sprintf("s%07d", atomic.AddInt64(&seq, 1))
